@@ -21,6 +21,11 @@ independent family of `n âˆ’ k` distinct generators â‡’ `HasRank (2n) rowsH (n â
 that `stabilizer_matrix`, `logicals_x`, `logicals_z` of the generic code model (`Model/Code.lean`,
 C02) assemble from this lattice model form a valid `[[n, k]]` stabilizer code (`ValidCodeL`: all
 four clauses of C01, rank included) for EVERY size of the family.
+
+The family (`selStabs`) is defined in the Mathlib-free model file, printed by the driver op `rankfamily` and
+evaluated on the IMPLEMENTATION's parity-check matrix on every run (stream `lat-XCubeCode-rank-family`:
+members `n âˆ’ k`, all distinct stabilizer locations, GF(2) rank `n âˆ’ k`).  `deformation_default_axis`: the
+default `deformation_axis='z'` of the signature (stream cases with the keyword omitted).
 -/
 import PanqecVerif.Proofs.LatXCubeCode9
 import PanqecVerif.Proofs.LatXCubeCodeRank3
